@@ -24,6 +24,8 @@ RECURSIVE Walk(_, _, _, _)
 Walk(fs, i, f, l) ==
   IF i > Len(fs) THEN [served |-> TRUE, nreq |-> i]
   ELSE IF fs[i] = "delay" THEN [served |-> TRUE, nreq |-> i]
+  \* the node forgot the prepared statement: the connection re-prepares and sends the same request again (no policy decision)
+  ELSE IF fs[i] = "unprepared" THEN Walk(fs, i + 1, f, l)
   ELSE LET d == DefaultDecide(f, TRUE, "LocalQuorum", SymOf(fs[i])) IN
        IF d.d = "same" THEN Walk(fs, i + 1, d.fl, l)
        ELSE IF d.d = "next" /\ l > 1 THEN Walk(fs, i + 1, d.fl, l - 1)
